@@ -24,6 +24,7 @@ const (
 
 var pubsubTransports = []string{"ws", "ipc", "inproc"}
 
+// failer is what the harness needs from *rapid.T / *testing.T.
 type failer interface {
 	Fatalf(format string, args ...interface{})
 	Helper()
@@ -572,9 +573,10 @@ func (w *world) settle(f failer, tr string) (closed bool) {
 }
 
 // resolve replaces the subscription-id placeholders of a message template.
-//   @@L<j>@@        j-th live subscription of the transport's own connection
-//   @@F:<tr>:<j>@@  j-th live subscription of another connection
-//   @@S@@           an id that was cancelled earlier on the own connection
+//
+//	@@L<j>@@        j-th live subscription of the transport's own connection
+//	@@F:<tr>:<j>@@  j-th live subscription of another connection
+//	@@S@@           an id that was cancelled earlier on the own connection
 func (w *world) resolve(text, tr string) string {
 	if !strings.Contains(text, "@@") {
 		return text
